@@ -19,6 +19,7 @@ package home
 
 import (
 	"bytes"
+	cryptorand "crypto/rand"
 	"encoding/hex"
 	"encoding/json"
 	"fmt"
@@ -58,6 +59,39 @@ type zzC12Env struct {
 	users    []webUser
 	probeRan bool
 	nfile    int
+	tok      *zzC12TokenSrc
+
+	// Restarts performed with at least two live stored sessions of different
+	// expiries, by whether the record the database iterates last (greatest
+	// token) is the one expiring last or first.
+	restartsLastLater, restartsLastEarlier int
+}
+
+// zzC12TokenSrc stands in for crypto/rand.Reader while the harness runs: the
+// session tokens the code draws (newSessionToken) become a function of the
+// step's seed, so that a history re-executed with the same seeds gets the same
+// tokens -- and thereby the same iteration order of the sessions database.
+// first, when not negative, is the first byte of the next token: it lets the
+// concretisation decide where a new token sorts among the stored ones.
+type zzC12TokenSrc struct {
+	rng   *rand.Rand
+	first int
+}
+
+// Read implements the [io.Reader] interface for *zzC12TokenSrc.
+func (r *zzC12TokenSrc) Read(p []byte) (n int, err error) {
+	_, _ = r.rng.Read(p)
+	if r.first >= 0 && len(p) == sessionTokenSize {
+		p[0] = byte(r.first)
+		r.first = -1
+	}
+
+	return len(p), nil
+}
+
+func (r *zzC12TokenSrc) set(seed int64, first int) {
+	r.rng = rand.New(rand.NewSource(seed))
+	r.first = first
 }
 
 // zzC12NewEnv installs a fresh mux with the real auth handlers and a probe
@@ -78,6 +112,10 @@ func zzC12NewEnv(t *testing.T) (e *zzC12Env) {
 	}
 
 	e.users = []webUser{{Name: zzC12User, PasswordHash: string(hash)}}
+	e.tok = &zzC12TokenSrc{rng: rand.New(rand.NewSource(zzSeed())), first: -1}
+	prevReader := cryptorand.Reader
+	cryptorand.Reader = e.tok
+	t.Cleanup(func() { cryptorand.Reader = prevReader })
 
 	prevMux, prevWeb, prevFirst, prevAuth := globalContext.mux, globalContext.web, globalContext.firstRun, globalContext.auth
 	t.Cleanup(func() {
@@ -146,8 +184,9 @@ func zzC12Claim(rng *rand.Rand, kind string, other netip.Addr) (a netip.Addr) {
 }
 
 // zzC12Login sends one login request through the mux: from peer ip, claiming
-// (in one of the forwarding headers) to originate from claim, if valid.
-func (e *zzC12Env) login(rng *rand.Rand, ip netip.Addr, ok bool, claim netip.Addr) (out, cookie, detail string) {
+// (in one of the forwarding headers) to originate from claim, if valid.  first
+// is passed to the token source.
+func (e *zzC12Env) login(rng *rand.Rand, ip netip.Addr, ok bool, claim netip.Addr, first int) (out, cookie, detail string) {
 	name, pass := zzC12User, zzC12Pass
 	if !ok {
 		// A failed login is a wrong password or an unknown user name.
@@ -158,6 +197,7 @@ func (e *zzC12Env) login(rng *rand.Rand, ip netip.Addr, ok bool, claim netip.Add
 		}
 	}
 
+	e.tok.set(rng.Int63(), first)
 	body, _ := json.Marshal(loginJSON{Name: name, Password: pass})
 	r := httptest.NewRequest(http.MethodPost, "/control/login", bytes.NewReader(body))
 	r.Header.Set("Content-Type", "application/json")
@@ -306,7 +346,7 @@ func (s *zzC12RL) do(act string, seed int64) (out, detail string) {
 	case "attempt":
 		// attempt <peer> <claim> <ok|bad>
 		rng := rand.New(rand.NewSource(seed))
-		out, _, detail = s.env.login(rng, s.addrs[f[1]], f[3] == "ok", zzC12Claim(rng, f[2], s.other(f[1])))
+		out, _, detail = s.env.login(rng, s.addrs[f[1]], f[3] == "ok", zzC12Claim(rng, f[2], s.other(f[1])), -1)
 
 		return out, detail
 	case "tick":
@@ -423,6 +463,12 @@ type zzC12AU struct {
 	tokens map[string]string // abstract name -> cookie value
 	fn     string
 	auth   *Auth
+
+	// order is where a new token sorts among the earlier ones of this history
+	// (the sessions database iterates in token order): 0 after all of them, 1
+	// before all of them, 2 anywhere.
+	order  int
+	nlogin int
 }
 
 func zzC12RandHex(rng *rand.Rand) (s string) {
@@ -443,8 +489,10 @@ func (s *zzC12AU) open() {
 	globalContext.auth = s.auth
 }
 
-func (s *zzC12AU) reset(_ int64) {
+func (s *zzC12AU) reset(seed int64) {
 	s.close()
+	s.order = int(rand.New(rand.NewSource(seed)).Intn(3))
+	s.nlogin = 0
 	s.fn = s.env.newDBFile()
 	s.tokens = map[string]string{}
 	s.open()
@@ -477,10 +525,20 @@ func (s *zzC12AU) do(act string, seed int64) (out, detail string) {
 	switch f[0] {
 	case "login":
 		var cookie string
-		out, cookie, detail = s.env.login(rng, zzC12RandAddr(rng, 7), true, netip.Addr{})
+		first := -1
+		switch s.nlogin++; s.order {
+		case 0:
+			first = 0x20 + s.nlogin%0xc0
+		case 1:
+			first = 0xe0 - s.nlogin%0xc0
+		}
+
+		out, cookie, detail = s.env.login(rng, zzC12RandAddr(rng, 7), true, netip.Addr{}, first)
 		if out == "ok" {
 			s.tokens[f[1]] = cookie
 		}
+
+		detail += " token=" + cookie
 
 		return out, detail
 	case "use":
@@ -493,6 +551,7 @@ func (s *zzC12AU) do(act string, seed int64) (out, detail string) {
 		// the reply is the request's.
 		return s.race(s.cookieFor(f[1], rng), s.cookieFor(f[2], rng), rng)
 	case "restart":
+		s.noteRestart()
 		s.auth.Close()
 		s.open()
 
@@ -642,6 +701,37 @@ func zzC12Sessions(a *Auth) (mem, db map[string]int64, err error) {
 	})
 
 	return mem, db, err
+}
+
+// noteRestart classifies the stored sessions a restart is about to load.
+func (s *zzC12AU) noteRestart() {
+	_, db, err := zzC12Sessions(s.auth)
+	if err != nil || len(db) < 2 {
+		return
+	}
+
+	last, lo, hi := "", int64(0), int64(0)
+	for k, e := range db {
+		if k > last {
+			last = k
+		}
+
+		if lo == 0 || e < lo {
+			lo = e
+		}
+
+		if e > hi {
+			hi = e
+		}
+	}
+
+	switch {
+	case lo == hi:
+	case db[last] == hi:
+		s.env.restartsLastLater++
+	case db[last] == lo:
+		s.env.restartsLastEarlier++
+	}
 }
 
 func (s *zzC12AU) state() (st string) {
@@ -1101,7 +1191,8 @@ func TestZZVerifC12Walk(t *testing.T) {
 		}
 	})
 
-	w.put(map[string]any{"kind": "done", "graphs": gi})
+	w.put(map[string]any{"kind": "done", "graphs": gi, "restarts_last_later": env.restartsLastLater,
+		"restarts_last_earlier": env.restartsLastEarlier})
 }
 
 // TestZZVerifC12Replay re-executes one stored disagreement (history + step).
@@ -1234,7 +1325,7 @@ func zzC12TraceRL(env *zzC12Env, w *zzWriter, k, steps int) {
 
 				ok := rng.Intn(6) == 0
 				claim := []string{"none", "none", "none", "peer", "trusted", "trusted", "untrusted"}[rng.Intn(7)]
-				out, _, detail := env.login(rng, sys.addrs[a], ok, zzC12Claim(rng, claim, sys.other(a)))
+				out, _, detail := env.login(rng, sys.addrs[a], ok, zzC12Claim(rng, claim, sys.other(a)), -1)
 				line("attempt", a, claim, ok, 0, out, pre, proj(), detail)
 
 				continue
